@@ -117,8 +117,10 @@ CHECKS = {
             'defined exactly once across main/s*/d*, static only with an identical reference body), every file is compiled on its '
             'own, all files are linked with the driver (gnu-ld: via ld -r -b binary) and run against the interpreter, and outputs '
             'are compared byte for byte across reruns, thread counts and the no-pthread/no-getopt/no-libgen/no-strdup builds.',
-            'Worker interleavings are exercised with real threads (1..64 workers) and byte-identity of the result; owning the '
-            'schedule needs the vsched harness (DESIGN Appendix A).', 'DESIGN.md section 7 C09'),
+            'Worker interleavings: (a) real threads (1..64 workers) with byte-identity of the result, large atomic-heavy modules '
+            'translated with many workers vs. one; (b) the unmodified translator linked against the vsched scheduler and run under '
+            'generated decision strings; (c) a ThreadSanitizer build of the translator. All three sample the interleavings.',
+            'DESIGN.md sections 0.7 and 7 C09'),
     'C12': ('F3 WASI agent (c/wasiagent.c + /repo/wasi/wasi.c under ASan+UBSan) + Hypothesis RuleBasedStateMachine',
             'stateful PBT (Hypothesis rule-based state machine), differential against the host kernel: every WASI call is mirrored '
             'by the corresponding POSIX call on a byte-identical mirror tree; shrunk histories become replay files',
